@@ -840,7 +840,7 @@ def py_env_gen(ck, name, mode="env", seeds=4, need=(), timeout=600, xcheck=0, **
     c = ec(**dict(dict(NLevels=10), **kw))
     assert len(c["Ticks"]) == 1
     rargs = ["--mode", mode, "--tick", c["Ticks"][0], "--step", c["StepSize"], "--trading", "true" if c["Trading0"] else "false",
-             "--seeds", seeds, "--base-seed", ck.seed, "--procs", 14]
+             "--seeds", seeds, "--base-seed", ck.seed, "--procs", 14, "--t0", c["T0"]]
     xfile = os.path.join(core.WORK, "xsnap", "%s_%s.ndjson" % (ck.prop, name))
     if xcheck:
         import glob
@@ -882,6 +882,11 @@ def c18(tier, seed):
     # off-grid prices (ValueError) and out-of-range integers (OverflowError): object unchanged
     py_book_gen(ck, "py_book_errors", Ops=["cap", "cancel", "bad"], Tick=2, Prices=[10, 11], Vols=[1], Kinds=["L"], MaxOrders=2,
                 MaxOps=3 if q else 4, need=("value_error", "overflow_error", "has_trade"), timeout=300 if q else 1500)
+    # limit prices at the lower end of the range: price 0 is a valid grid price (a resting bid at 0, an ask at 0 that any buy crosses)
+    py_book_gen(ck, "py_book_edge_prices", Ops=["cap", "cancel", "modify"], Prices=[0, 1, 2], Vols=[1, 2], ModPrices=[-1, 0], ModVols=["smaller"],
+                Kinds=["L", "M"], MaxOrders=3, MaxOps=3 if q else 4, need=("has_trade", "op_modify"), timeout=300 if q else 1500)
+    py_env_gen(ck, "py_env_edge_prices", seeds=2 if q else 4, StepSize=4, T0=17, Ops=["new", "modify", "step"], Kinds=["L", "M"], Prices=[0, 1], Vols=[1],
+               ModPrices=[0], ModVolsAbs=[-1], MaxSubmits=3, MaxBatch=3, MaxSteps=2, MaxOrders=3, need=("has_trade",), timeout=400 if q else 1800)
     # StepEnv: outcome sets over all schedules, determinism in the seed, same seed as the Rust core
     py_env_gen(ck, "py_env_calls", seeds=3 if q else 8, xcheck=3, StepSize=5, Ops=["new", "cancel", "modify", "step"], Kinds=["L", "M"],
                Prices=[10, 11], Vols=[2] if q else [1, 2], ModPrices=[-1, 11], ModVolsAbs=[-1, 1], MaxSubmits=3 if q else 4, MaxBatch=3, MaxSteps=2,
